@@ -122,7 +122,7 @@ func (r *recSink) IsIncremental() bool {
 
 func (r *recSink) DeleteEntry(key string, isDirectory, deleteIncludeChunks bool, signatures []int32) error {
 	r.calls = append(r.calls, call{"op": "delete", "key": r.rel(key), "isdir": isDirectory, "np": "", "name": "", "on": "",
-		"c": "", "found": false, "sigs": sigList(signatures)})
+		"c": "", "found": false, "sigs": sigList(signatures), "other": true})
 	if r.inner != nil {
 		return r.inner.DeleteEntry(key, isDirectory, deleteIncludeChunks, signatures)
 	}
@@ -131,7 +131,7 @@ func (r *recSink) DeleteEntry(key string, isDirectory, deleteIncludeChunks bool,
 
 func (r *recSink) CreateEntry(key string, entry *filer_pb.Entry, signatures []int32) error {
 	r.calls = append(r.calls, call{"op": "create", "key": r.rel(key), "isdir": entry.IsDirectory, "np": "", "name": entry.Name, "on": "",
-		"c": string(entry.Content), "found": false, "sigs": sigList(signatures)})
+		"c": string(entry.Content), "found": false, "sigs": sigList(signatures), "other": true})
 	if r.inner != nil {
 		return r.inner.CreateEntry(key, entry, signatures)
 	}
@@ -140,7 +140,7 @@ func (r *recSink) CreateEntry(key string, entry *filer_pb.Entry, signatures []in
 
 func (r *recSink) UpdateEntry(key string, oldEntry *filer_pb.Entry, newParentPath string, newEntry *filer_pb.Entry, deleteIncludeChunks bool, signatures []int32) (bool, error) {
 	c := call{"op": "update", "key": r.rel(key), "isdir": newEntry.IsDirectory, "np": r.rel(newParentPath), "name": newEntry.Name, "on": oldEntry.Name,
-		"c": string(newEntry.Content), "found": r.found, "sigs": sigList(signatures)}
+		"c": string(newEntry.Content), "found": r.found, "sigs": sigList(signatures), "other": true}
 	r.calls = append(r.calls, c)
 	if r.inner != nil {
 		found, err := r.inner.UpdateEntry(key, oldEntry, newParentPath, newEntry, deleteIncludeChunks, signatures)
